@@ -49,6 +49,22 @@ X_BLOCKS = [
     '@string{xs2 = "m {n} o" # {p}}',
 ]
 ROUTES = ("split", "default")
+# size-scaled malformed middles (thresholds on nesting depth, line count, block count)
+X_FAMILIES = {
+    "open_comment_nested": lambda n: "@comment{" + "{" * n,
+    "open_preamble_nested": lambda n: "@preamble{" + "{" * n,
+    "open_string_nested": lambda n: "@string{xs = " + "{" * n,
+    "open_value_nested": lambda n: "@a{xk, t = " + "{" * n,
+    "open_quoted_value_nested": lambda n: '@a{xk, t = "' + "{" * n,
+    "closers": lambda n: "}" * n,
+    "quotes": lambda n: '"' * n,
+    "unterminated_entries": lambda n: "@a{xk,\n" * n,
+    "unterminated_comments": lambda n: "@comment{x " * n,
+    "lines_then_open": lambda n: "x\n" * n + "@a{xk, t = {",
+    "failed_blocks": lambda n: "@a{xk a b}\n" * n,
+    "backslash_lines": lambda n: "\\\n" * n,
+}
+X_SIZES = {"quick": [1, 10, 100, 990, 1000, 1010, 3000], "thorough": [1, 10, 100, 990, 1000, 1010, 3000, 10**4, 10**5]}
 
 
 def bounds(tier):
@@ -65,6 +81,7 @@ def bounds(tier):
 def shards(tier):
     out = [("seq", s) for s in seq_shards(spaces.SIGMA_DOC, 4 if tier == "quick" else 5)]
     out += [("xblock", i) for i in range(len(X_BLOCKS))]
+    out += [("xfam", name) for name in sorted(X_FAMILIES)]
     return out
 
 
@@ -112,6 +129,12 @@ def check_triple(i, x, j, acc, case=None):
         a_full, _ = alone(d1, route)
         _, b_sig = alone(d2, route)
         try:
+            # history: the malformed text on its own first (it ends at EOF in whatever scanner state it reaches);
+            # nothing of that call may survive into the next one
+            try:
+                parse(x, route)
+            except Exception:
+                pass
             lib = parse(text, route)
         except Exception as e:
             acc.exception(e, case, route, size=len(x))
@@ -124,7 +147,7 @@ def check_triple(i, x, j, acc, case=None):
             acc.violation(
                 {"oracle": "prefix_blocks_unchanged", "route": route},
                 {"case": case, "text": text, "observed": [content(b) for b in blocks[: len(a_full)]], "expected": "blocks of D1 parsed alone", "d1_text": d1},
-                size=len(x),
+                size=min(len(x), 10**6),
             )
             continue
         got_suffix = tuple(bsig(b, shift) for b in blocks[len(blocks) - len(b_sig) :]) if len(blocks) >= len(b_sig) else None
@@ -163,6 +186,13 @@ def run_shard(shard, tier, acc):
             for i in range(len(D1S)):
                 for j in range(len(D2S)):
                     check_triple(i, x, j, acc)
+    elif kind == "xfam":
+        for n in X_SIZES[tier]:
+            x = X_FAMILIES[shard[1]](n)
+            acc.count("xfam_cases")
+            for i in (0, 3):
+                for j in (0, 1, 4):
+                    check_triple(i, x, j, acc, case={"d1": i, "xfam": [shard[1], n], "d2": j})
     elif kind == "xblock":
         toks = spaces.tokenize(X_BLOCKS[shard[1]])
         xs = ["".join(toks[:n]) for n in range(len(toks) + 1)]
@@ -175,13 +205,14 @@ def run_shard(shard, tier, acc):
 
 
 def replay(case, acc):
-    check_triple(case["d1"], case["x"], case["d2"], acc, case)
+    x = case["x"] if "x" in case else X_FAMILIES[case["xfam"][0]](case["xfam"][1])
+    check_triple(case["d1"], x, case["d2"], acc, case)
 
 
 def unit_test(case):
     return (
         "import bibtexparser\n"
-        f"d1, x, d2 = {D1S[case['d1']]!r}, {case['x']!r}, {D2S[case['d2']]!r}\n"
+        f"d1, x, d2 = {D1S[case['d1']]!r}, {case.get('x', case.get('xfam'))!r}, {D2S[case['d2']]!r}\n"
         "P = bibtexparser.parse_string(d1 + x + '\\n' + d2).blocks\n"
         "A = bibtexparser.parse_string(d1).blocks; B = bibtexparser.parse_string(d2).blocks\n"
         "assert P[:len(A)] == A\n"
